@@ -111,7 +111,7 @@ def plan(tier, seed):
                                                        'not_unifiable': 5000, 'online_yields_checked': 20000,
                                                        'with_prior_stack': 10000}}
     u = len(universe())
-    return {'n': 600000 + u * u, 'deadline': 500, 'exh': u * u,
+    return {'n': 1800000 + u * u, 'deadline': 540, 'exh': u * u,
             'floor': {'lifo_histories': 1, 'lifo_chains_of_17_or_more_links': 1, 'distinct_nontrivial': 100000, 'unifiable': 100000, 'not_unifiable': 100000,
                       'online_yields_checked': 400000, 'with_prior_stack': 200000, 'exhaustive_pairs': u * u}}
 
